@@ -411,10 +411,46 @@ func checkC15(c *Ctx, r *Report) {
 				good = true
 			}
 		}
-		if good {
-			o.OK("DialContext is called with a context derived from context.WithTimeout/WithDeadline of the caller's timeout")
-		} else {
+		// ... whenever a timeout is configured: the only condition on installing it is `timeout > 0`
+		// (a deadline the caller's context already has may be later than the dialer's own timeout)
+		extra := ""
+		for _, wt := range callsTo(fn, false, "context.WithTimeout", "context.WithDeadline") {
+			for _, cd := range condsAt(wt.Block()) {
+				isTimeoutTest := false
+				if b, ok := cd.V.(*ssa.BinOp); ok {
+					if _, isC := constInt(b.Y); isC && isIntType(b.X.Type()) {
+						isTimeoutTest = true
+					}
+					if _, isC := constInt(b.X); isC && isIntType(b.Y.Type()) {
+						isTimeoutTest = true
+					}
+				}
+				onCtx := dependsOn(cd.V, func(x ssa.Value) bool {
+					call, ok := x.(*ssa.Call)
+					if !ok || !call.Call.IsInvoke() {
+						return false
+					}
+					switch call.Call.Method.Name() {
+					case "Deadline", "Err", "Done", "Value":
+						return strings.HasSuffix(call.Call.Value.Type().String(), "context.Context")
+					}
+					return false
+				})
+				if !isTimeoutTest && onCtx {
+					extra = c.exprAt(fn, cd.V.Pos())
+					if extra == "" {
+						extra = pathOf(cd.V)
+					}
+				}
+			}
+		}
+		switch {
+		case !good:
 			o.Bad("the timeout no longer reaches DialContext as a context deadline")
+		case extra != "":
+			o.Bad("installing the configured timeout depends on the state of the caller's context (%s): when that context already has a (later) deadline the dialer's own timeout and the dial_timeout of the URL are ignored and a stalling server holds the dial until the caller's deadline", extra)
+		default:
+			o.OK("DialContext is called with a context derived from context.WithTimeout/WithDeadline of the caller's timeout, whenever one is configured")
 		}
 		// a duration parsed from the URL (dial_timeout) must be the one that reaches WithTimeout
 		for _, pd := range callsTo(fn, false, "time.ParseDuration") {
@@ -568,7 +604,9 @@ func loginReadsRule(c *Ctx, r *Report, rule string) {
 				done[useKey{ci, delim}] = true
 				o := r.Add(rule, fnName(u.fn), "login reader: "+c.exprAt(u.fn, ci.Pos()), c.pos(ci.Pos()))
 				switch m {
-				case "ReadString", "ReadBytes", "ReadSlice":
+				case "ReadSlice":
+					o.Bad("a login line is read with ReadSlice, which fails with ErrBufferFull for a line longer than the reader's buffer and leaves its tail in the stream: a password of 4096 bytes or more cannot log in")
+				case "ReadString", "ReadBytes":
 					if d, ok := constInt(delim); ok && d == 13 {
 						o.OK("reads one CR-terminated line")
 					} else {
